@@ -62,7 +62,7 @@ from specs import treeio as T
 from specs import trees as S
 
 import dendropy
-from dendropy import Tree, TreeList
+from dendropy import Tree, TreeList, TaxonNamespace
 
 SCHEMAS = ("newick", "nexus", "nexml")
 
@@ -128,6 +128,15 @@ def evaluate(case):
             if route == "string":
                 text = src.as_string(schema=schema, **wk)
                 got = cls.get(data=text, schema=schema, **rk)
+            elif route == "yield":
+                # read back one tree at a time through the tree iterator, into a fresh namespace
+                text = src.as_string(schema=schema, **wk)
+                ns_y = TaxonNamespace()
+                got = TreeList(taxon_namespace=ns_y)
+                for t_y in Tree.yield_from_files([io.StringIO(text)], schema, taxon_namespace=ns_y, **rk):
+                    got._trees.append(t_y)
+                if kind == "tree":
+                    got = got._trees[0]
             elif route == "stream":
                 buf = io.StringIO()
                 src.write(file=buf, schema=schema, **wk)
@@ -140,6 +149,8 @@ def evaluate(case):
                 with open(tmp) as f:
                     text = f.read()
                 got = cls.get(path=tmp, schema=schema, **rk)
+        except NameError:
+            raise   # a defect of this driver, not of the library: never a verdict
         except Exception as e:
             if kind == "list" and not doc["trees"] and isinstance(e, ValueError) and "No trees" in str(e):
                 return []
@@ -206,7 +217,21 @@ def labels_upto(k):
                 yield lab
 
 
+def numeral_doc(labs):
+    root = [None, None, None, [[None, None, 0.5, [[labs[0], None, 1.0, []], [labs[1], None, 2.0, []]]], [labs[2], None, 0.25, []]]]
+    t = {"rooted": True, "root": root, "weight": None}
+    root2 = [None, None, None, [[None, None, 0.5, [[labs[2], None, 1.0, []], [labs[1], None, 2.0, []]]], [labs[0], None, 0.25, []]]]
+    return {"ns": list(labs), "trees": [t, {"rooted": True, "root": root2, "weight": None}]}
+
+
 def label_cases(labels, scope):
+    # labels that are numerals, met in an order that is not their numeric order: a label is a label, never the number of a taxon
+    # (through every reading route, the tree iterator included)
+    for labs in (["7", "1", "2"], ["2", "1", "3"], ["3", "x", "1"], ["10", "2", "1"]):
+        doc = numeral_doc(labs)
+        for schema in ("newick", "nexus"):
+            for route in ("string", "yield", "path"):
+                yield dict(scope=scope, schema=schema, pair="default", kind="list", route=route, doc=doc, label="/".join(labs))
     for lab in labels:
         doc = label_doc(lab)
         for schema in SCHEMAS:
